@@ -8,6 +8,7 @@ import (
 // C12 — output is all-or-nothing and writer failures are reported.
 
 //verif:harness VerifC12_LargeDocument quick.maxpaths=20000 thorough.maxpaths=100000 timeout=1800 steps=60000000
+//verif:harness VerifC12_FailingFunctions quick.maxpaths=20000 thorough.maxpaths=100000 timeout=1800 steps=20000000
 //verif:harness VerifC12_AllOrNothing poolreuse=lifo quick.maxpaths=60000 thorough.maxpaths=400000 timeout=2400 steps=20000000
 
 func zzC12FS() *zzFS {
@@ -198,4 +199,65 @@ func VerifC12_LargeDocument() {
 	zzAssert(err != nil, "C12.writer.failure-not-reported")
 	full := &zzWriter{limit: size}
 	zzAssert(run(full) == nil && len(full.got) == size, "C12.ok.incomplete-document")
+}
+
+// error values of concrete types: a function registered with WithFuncs may
+// declare its second result as any type that implements error
+type zzC12QuotaErr struct{ n int }
+
+func (e *zzC12QuotaErr) Error() string { return "quota exceeded" }
+
+type zzC12Errs []string
+
+func (e zzC12Errs) Error() string { return strings.Join(e, "; ") }
+
+// VerifC12_FailingFunctions: a registered function that reports a failure -
+// its second result declared as error, as a pointer type or as a slice type
+// implementing error - fails the render, which writes nothing, wherever the
+// call sits; when the same function succeeds the document is delivered.
+func VerifC12_FailingFunctions() {
+	fails := zzBool("fails")
+	funcs := FuncMap{
+		"viaIface": func(v any) (string, error) {
+			if fails {
+				return "", &zzC12QuotaErr{1}
+			}
+			return "V", nil
+		},
+		"viaPtr": func(v any) (string, *zzC12QuotaErr) {
+			if fails {
+				return "", &zzC12QuotaErr{2}
+			}
+			return "V", nil
+		},
+		"viaSlice": func(v any) (string, zzC12Errs) {
+			if fails {
+				return "", zzC12Errs{"a", "b"}
+			}
+			return "V", nil
+		},
+	}
+	fn := []string{"viaIface", "viaPtr", "viaSlice"}[zzChoice("fn", 3)]
+	bodies := []string{
+		`<h1>ok</h1><p>{{ title | FN }}</p>`,
+		`<h1>ok</h1><p :title="title | FN">x</p>`,
+		`<h1>ok</h1><ul><li v-for="(i, it) in items"><b v-if="i == 1">{{ it | FN }}</b></li></ul>`,
+		`<h1>ok</h1><template include="cf.vuego"></template>`,
+		`<h1>ok</h1><p v-text="title | FN"></p><p v-html="title | FN"></p>`,
+		`<h1>ok</h1><p>{{ FN(title) }}</p>`,
+	}
+	body := strings.ReplaceAll(bodies[zzChoice("body", len(bodies))], "FN", fn)
+	fsys := newZZFS(map[string]string{"cf.vuego": `<i>{{ title | ` + fn + ` }}</i>`})
+	out, err := zzRenderVia(zzEntry(), fsys, []LoadOption{WithFuncs(funcs)}, body, zzC12Data())
+	zzNote("template", body)
+	zzNote("out", out)
+	if err != nil {
+		zzNote("err", err.Error())
+	}
+	if fails {
+		zzAssert(err != nil, "C12.funcs.failure-not-reported")
+		zzAssert(out == "", "C12.funcs.partial-output")
+	} else {
+		zzAssert(err == nil && strings.Contains(out, "V") && strings.Contains(out, "<h1>ok</h1>"), "C12.funcs.spurious-error")
+	}
 }
